@@ -98,6 +98,48 @@ fn send_topo(lean: &mut Lean, s: &TopoSpec) {
 }
 
 /// random topology: 1-2 ISDs, 1-2 cores each, 2-4 non-core ASes in a DAG, 0-2 peering links
+/// Topology with the interface numbering operators use in practice: every AS numbers its interfaces by
+/// role (1 = uplink, 2 = downlink, 3/4 = further children, 10/11 = core neighbours), so different ASes of one
+/// segment carry identical (ingress, egress) pairs. Deep parent/child chains below a chain of cores.
+fn gen_chain_topo(rng: &mut Rng) -> TopoSpec {
+    let mut ases = vec![];
+    let mut links = vec![];
+    let mut key = |rng: &mut Rng| {
+        let mut k = [0u8; 16];
+        k.copy_from_slice(&rng.bytes(16));
+        k
+    };
+    let ncores = rng.range(1, 4);
+    let mut cores = vec![];
+    for c in 0..ncores {
+        let a = ia(1, 1 + c * 10);
+        ases.push(AsSpec { ia: a, core: true, key: key(rng) });
+        cores.push(a);
+    }
+    for i in 1..cores.len() {
+        // every core: 10 = towards the previous core, 11 = towards the next one
+        links.push(LinkSpec { a: cores[i], a_if: 10, role: ScionLinkType::Core, b: cores[i - 1], b_if: 11, up: true });
+    }
+    // one or two chains of non-core ASes, each hanging below a core
+    let nchains = rng.range(1, 2);
+    let mut k = 0u64;
+    for ch in 0..nchains {
+        let top = cores[rng.below(cores.len() as u64) as usize];
+        let depth = rng.range(3, 5);
+        let mut parent = top;
+        for d in 0..depth {
+            let a = ia(1, 100 + k);
+            k += 1;
+            ases.push(AsSpec { ia: a, core: false, key: key(rng) });
+            // child side: 1 = uplink; parent side: 2 = downlink (second chain below the same AS: 3)
+            let pif = if d == 0 { 2 + ch as u16 } else { 2 };
+            links.push(LinkSpec { a, a_if: 1, role: ScionLinkType::Child, b: parent, b_if: pif, up: true });
+            parent = a;
+        }
+    }
+    TopoSpec { ases, links }
+}
+
 fn gen_topo(rng: &mut Rng) -> TopoSpec {
     let mut ases = vec![];
     let mut links = vec![];
@@ -517,6 +559,9 @@ fn main() {
     let mut topos = vec![repo_test_topology()];
     for _ in 0..n_topos {
         topos.push(gen_topo(&mut rng));
+    }
+    for _ in 0..args.scale(3, 40) {
+        topos.push(gen_chain_topo(&mut rng));
     }
     let mac_probe_done = std::cell::Cell::new(false);
     for (ti, spec) in topos.iter().enumerate() {
